@@ -64,7 +64,7 @@ def gen_bytes(rnd, kind, n):
     return bytes((i * 7) & 255 for i in range(n))
 
 
-TREE_SHAPES = ['random', 'single_nested', 'single_top', 'deep_only', 'one_per_dir', 'two_same_name', 'empty_files']
+TREE_SHAPES = ['random', 'single_nested', 'single_top', 'deep_only', 'one_per_dir', 'two_same_name', 'empty_files', 'dotnames']
 
 
 def make_tree(root, rnd, nfiles, max_size=120000, shape='random'):
@@ -87,10 +87,16 @@ def make_tree(root, rnd, nfiles, max_size=120000, shape='random'):
         nfiles, dirs, fixed = 2, None, 'same.dat'
     elif shape == 'empty_files':
         sizes, max_size = [0], 1
+    elif shape == 'dotnames':
+        # names that begin with dots (legal names, but they look like path elements to code that tests prefixes)
+        dirs = ['', '', '..cache', 'sub', '...']
     for i in range(nfiles):
         d = rnd.choice(dirs) if dirs is not None else 'dir%d/s' % i
         os.makedirs(os.path.join(root, d), exist_ok=True)
-        name = fixed or (rnd.choice(['file%d.txt', 'data%d.bin', '.dot%d', 'with space %d', 'x%d.knz.txt', 'noext%d']) % i)
+        names = ['file%d.txt', 'data%d.bin', '.dot%d', 'with space %d', 'x%d.knz.txt', 'noext%d']
+        if shape == 'dotnames':
+            names = ['..notes%d.txt', '..%d', '...%d', 'notes%d.txt', '.%d.', '..notes%d.txt']
+        name = fixed or (rnd.choice(names) % (i // 2 if shape == 'dotnames' else i))
         n = rnd.choice(sizes) if rnd.random() < 0.6 else rnd.randrange(max_size)
         with open(os.path.join(root, d, name), 'wb') as fh:
             fh.write(gen_bytes(rnd, rnd.choice(['text', 'random', 'dna', 'runs', 'ramp', 'rgb', 'pcm']), n))
@@ -263,12 +269,12 @@ class Cli:
         if os.path.exists(log1):
             os.remove(log1)
 
-    def path_forms(self, rnd, k, opts, desc):
+    def path_forms(self, rnd, k, opts, desc, shape=None):
         """the same tree named in the ways a shell user names a directory (./dir, dir/, dir//, a/./dir, dir/../dir, absolute, '.'):
         the round trip into other directories must restore every file under its own relative path"""
         base = os.path.join(self.root, 'p%d' % k)
         t = os.path.join(base, 'top', 'src')
-        snap = make_tree(t, rnd, rnd.randint(2, 5), max_size=30000, shape=rnd.choice(['random', 'deep_only', 'single_nested']))
+        snap = make_tree(t, rnd, rnd.randint(2, 5), max_size=30000, shape=shape or rnd.choice(['random', 'deep_only', 'single_nested']))
         forms = [('./top/src', base), ('top/src/', base), ('top//src', base), ('top/./src', base), ('top/src/../src', base), (t, None), ('.', t),
                  ('./', t), ('../src', t), ('src', os.path.join(base, 'top'))]
         for fi, (form, cwd) in enumerate(forms):
